@@ -350,6 +350,17 @@ class SimProcess:
     def terminate(self):
         self.sim.yp('p.terminate', self.ordinal)
         if self.ent is not None and self.ent.alive:
+            h = self.ent.tags.get('sigterm_handler', _real_signal.SIG_DFL)
+            if h is _real_signal.SIG_IGN:
+                self.sim.ev('sigterm-ignored', self.ent.name)
+                return
+            if h is not _real_signal.SIG_DFL and callable(h):
+                # SIGTERM no longer ends the process: its handler runs inside the task process, at the
+                # process's next step, and whatever it raises unwinds the task's Python code
+                self.sim.ev('sigterm-handled', self.ent.name)
+                self.sim.fired('sigterm-to-handler')
+                self.ent.pending_exc = (lambda h=h: h(_real_signal.SIGTERM, None))
+                return
             self.sim.kill(self.ent, 'terminate', flush_first=self.simos.kill_flush)
 
     def kill(self):
@@ -551,6 +562,13 @@ class SignalShim:
         sim = so.sim
         sim.yp('signal')
         e = sim.me()
+        if signum == _real_signal.SIGTERM and e is not None and e.kind == 'worker':
+            # what Process.terminate() will meet in this task process
+            previous = e.tags.get('sigterm_handler', _real_signal.SIG_DFL)
+            e.tags['sigterm_handler'] = handler
+            sim.ev('sigterm-disp', e.name, 'default' if handler is _real_signal.SIG_DFL else
+                   ('ignore' if handler is _real_signal.SIG_IGN else 'handler'))
+            return previous
         if signum != _real_signal.SIGINT:
             return _real_signal.SIG_DFL
         if handler is _real_signal.SIG_IGN:
